@@ -11,6 +11,10 @@ const A2_PASCAL: &str = "a2 pascal";
 const PRODOS: &str = "prodos";
 const CPM: &str = "cpm";
 const FAT: &str = "fat";
+/// largest allocation unit of any supported file system (a 64K FAT cluster)
+const MAX_CHUNK_LEN: usize = 0x10000;
+/// bound on chunk indices in a file image, keeps products with the chunk length far from overflow
+const MAX_CHUNK_INDEX: usize = 0xffffff;
 
 impl FileImage {
     pub fn fimg_version() -> String {
@@ -164,6 +168,10 @@ impl FileImage {
         }
         let fs = Self::parse_str("file_system",&parsed)?;
         let chunk_len = Self::parse_usize("chunk_len", &parsed)?;
+        if chunk_len < 1 || chunk_len > MAX_CHUNK_LEN {
+            log::error!("chunk length {} is out of range",chunk_len);
+            return Err(Box::new(Error::FileImageFormat));
+        }
         let fs_type = Self::parse_hex_to_vec("fs_type",&parsed)?;
         let aux = Self::parse_hex_to_vec("aux",&parsed)?;
         let eof = Self::parse_hex_to_vec("eof",&parsed)?;
@@ -188,6 +196,10 @@ impl FileImage {
         for (key,hex) in map_obj.entries() {
             let prev_len = chunks.len();
             if let Ok(num) = usize::from_str(key) {
+                if num > MAX_CHUNK_INDEX {
+                    log::error!("chunk index {} is out of range",num);
+                    return Err(Box::new(Error::FileImageFormat));
+                }
                 if let Some(hex_str) = hex.as_str() {
                     if let Ok(dat) = hex::decode(hex_str) {
                         chunks.insert(num,dat);
